@@ -28,8 +28,7 @@ ASSUMPTIONS = [
     "a directive comment on its own line inside a bracketed statement is ambiguous (own line, yet inline by position) "
     "and is not generated",
     "REPORT_* style switches are not part of the property and are not compared by the shadow state",
-    "--options=+REQUIRES(...) is finding F9 (stored as a bool, TypeError at run time) and is probed by fixed cases; boolean "
-    "options are generated freely",
+    "--options=+REQUIRES(...) (finding F9, repaired) is generated like the boolean options, with met and unmet conditions",
 ]
 NSHARDS = {'quick': 16, 'thorough': 16}
 
@@ -235,7 +234,8 @@ def check_history(ctx, events, defaults=(), origin='random'):
                     'model_fails': exp_fail, 'observed': harness.outcome(s)}, limit=3)
 
 
-DEFAULT_CHOICES = [(), (), ('+SKIP',), ('+IGNORE_WHITESPACE',), ('-SKIP',)]
+DEFAULT_CHOICES = [(), (), ('+SKIP',), ('+IGNORE_WHITESPACE',), ('-SKIP',), ('+REQUIRES(%s)' % UNMET_A,),
+                   ('+REQUIRES(module:os)',), ('+REQUIRES(%s)' % UNMET_B, '+IGNORE_WHITESPACE')]
 
 F9_PROBES = [
     ('+REQUIRES(%s)' % UNMET_A, '>>> quiet(1)\n>>> quiet(2)'),
@@ -268,7 +268,8 @@ def probe_f9(ctx):
 
 def required_cells(tier):
     cells = ['state:skip=0,req=0', 'state:skip=1,req=0', 'state:skip=0,req=1', 'state:skip=1,req=1',
-             'event:block', 'event:inline', 'defaults:+SKIP', 'defaults:+IGNORE_WHITESPACE', 'defaults:-SKIP']
+             'event:block', 'event:inline', 'defaults:+SKIP', 'defaults:+IGNORE_WHITESPACE', 'defaults:-SKIP',
+             'defaults:+REQUIRES(%s)' % UNMET_A, 'defaults:+REQUIRES(module:os)', 'f9-probe-behaves']
     cells += ['form:' + f for f in FORMS]
     return cells
 
@@ -324,9 +325,6 @@ def replay(case, ctx):
 
 
 def classify(v):
-    # F9 by mechanism: REQUIRES given through --options is stored as a bool
-    if v.get('mechanism') == 'options-requires' and 'REQUIRES' in v['case'].get('options', ''):
-        return 'options-requires-bool'
     return None
 
 
